@@ -143,6 +143,11 @@ def _call(ex, ev, model):
             frame = _frame(model.mesh_for(ev["slot"])["id"], model, ev["state"])
             if ev.get("subset") == "elset":
                 frame = frame[frame.index.get_level_values("element_id").isin(model.mesh_for(ev["slot"])["elset"])]
+            if ev.get("bad") == "values":
+                frame = frame.copy()
+                col = ev["columns"][0]
+                frame[col] = frame[col].astype(object)
+                frame.iloc[0, frame.columns.get_loc(col)] = "n/a"
             if ev.get("rows") == "blocks-reversed":
                 eids = frame.index.get_level_values("element_id").to_numpy()
                 first = {}
